@@ -4,6 +4,7 @@ import (
 	"bytes"
 	"fmt"
 	"runtime"
+	"strings"
 	"sync"
 
 	"github.com/gregoryv/mq"
@@ -347,6 +348,46 @@ func runC13(c *sim.Ctx) *sim.Violation {
 	if cold && !sequential() {
 		c.Count("skipped.sequential-encode-failed")
 		return nil
+	}
+	// two different large packets written again and again at the same time by two
+	// goroutines each: what an encoder remembers per PROCESS between sizing a packet
+	// and filling it belongs to neither packet (no data race needed: two atomics
+	// updated one after the other are enough). Only header and size are compared.
+	var bigs []int
+	for i, h := range hows {
+		if strings.HasPrefix(h, "PUBLISH of ") {
+			bigs = append(bigs, i)
+		}
+	}
+	if len(bigs) == 2 && seq[bigs[0]] != nil && seq[bigs[1]] != nil {
+		var wg sync.WaitGroup
+		var gate sync.WaitGroup
+		gate.Add(1)
+		bad := make([]string, 4)
+		for g := 0; g < 4; g++ {
+			wg.Add(1)
+			go func(g int) {
+				defer wg.Done()
+				i := bigs[g%2]
+				want := seq[i]
+				gate.Wait()
+				for r := 0; r < 60 && bad[g] == ""; r++ {
+					hw := &headWriter{}
+					n, err := ps[i].WriteTo(hw)
+					if err != nil || int(n) != len(want) || hw.n != len(want) || !bytes.Equal(hw.head, want[:len(hw.head)]) {
+						bad[g] = fmt.Sprintf("write %d of packet %d: n=%d err=%v, %d bytes, header %x; sequentially %d bytes, header %x", r, i, n, err, hw.n, hw.head, len(want), want[:8])
+					}
+				}
+			}(g)
+		}
+		gate.Done()
+		wg.Wait()
+		c.Count("probe.two-large-packets-hammered-concurrently")
+		for _, b := range bad {
+			if b != "" {
+				return sim.V("C13/PUBLISH/concurrent-result-differs/two-large-packets", "two different PUBLISH packets (> 1 MiB each) written concurrently by four goroutines: %s", b)
+			}
+		}
 	}
 	for g := range outs {
 		for _, o := range outs[g] {
